@@ -3,10 +3,14 @@
 (* action is a plan step (calls, gate releases, token receives).           *)
 EXTENDS PriWake, TLCExt, Json, IOUtils
 CONSTANT Depth
+(* one file per simulated behaviour: TLC evaluates the invariant on every candidate successor at *)
+(* the last level; only the first candidate of a behaviour id is written                       *)
 ASSUME TLCSet(2, 0)
+BehaviourId == TLCGet("stats").behavior.id
 Emit ==
   \/ TLCGet("level") < Depth
-  \/ /\ TLCSet(2, TLCGet(2) + 1)
-     /\ ndJsonSerialize(IOEnv.VERIF_PLANDIR \o "/p" \o ToString(TLCGet(2)) \o ".ndjson",
+  \/ TLCGet(2) = BehaviourId
+  \/ /\ TLCSet(2, BehaviourId)
+     /\ ndJsonSerialize(IOEnv.VERIF_PLANDIR \o "/p" \o ToString(BehaviourId) \o ".ndjson",
                         [i \in 1..Len(Trace) |-> Trace[i].last])
 =============================================================================
